@@ -50,10 +50,10 @@ func c18Stateful(c *vk.Ctx) {
 		}
 	}
 	nHist := len(jobs)
-	// the quota above another limit middleware: all histories up to length 4/5 over 5 symbols, N = 1, 2
+	// the quota above another limit middleware: all histories up to length 3/4 over 5 symbols, N = 1, 2
 	var over []Job
 	for _, n := range []int{1, 2} {
-		for L := 1; L <= vk.Pick(c, 4, 5); L++ {
+		for L := 1; L <= vk.Pick(c, 3, 4); L++ {
 			for code := 0; code < pow(5, L); code++ {
 				over = append(over, Job{Harness: "QuotaOverFilters", Bound: -1, BudgetS: 60, FallbackDelay: 3, Params: map[string]int{"n": n, "len": L, "code": code}})
 			}
@@ -72,7 +72,7 @@ func c18Stateful(c *vk.Ctx) {
 		jobs = append([]Job{iso[i]}, jobs...)
 	}
 	jobs = append(jobs, over...)
-	c.P.Rule = "E1 on the real middlewares around a recording downstream stub. Quota: N in {1,2} (thorough: 3 too) x ALL client histories of length <= 5 (thorough: 6) over {REQ a, REQ b, REQ c, CLOSE a, CLOSE b} (3905 per N for length <= 5), one history per job; oracle = set model computed from the history (forward iff id open or fewer than N open, else exactly one CLOSED naming the id; CLOSE forwarded and frees; |open downstream| <= N at every prefix; downstream receives exactly the forwarded messages in order; one EOSE per forwarded REQ). Unique filters: side in {recv, send} x window in {1,2} x ALL EVENT-id histories of length <= 5 (thorough: 6) over 3 ids (363 each for length <= 5), between non-EVENT messages that must pass unchanged; three-valued oracle per position (must block while among the last `window` distinct ids seen, must pass if never seen, else unclaimed; exactly one OK false with the duplicate: prefix per blocked client EVENT). Schedules: ALL interleavings of every history (unbounded search with state caching). Isolation: two sessions with colliding ids - concurrent, and one after the other has ended - on ONE middleware value (MaxSubscriptions(1), RecvEventUniqueFilter(2), SendEventUniqueFilter(2); 3 script pairs each) over one shared stub, all schedules within the budget else a delay bound; oracle: each session's outcome equals the model's outcome for that session alone. Quota above another limit: MaxSubscriptions(N) over MaxReqFilters(1), ALL histories of length <= 4/5 over {REQ a, REQ b, REQ a with 2 filters, REQ b with 2 filters, CLOSE a}: at every prefix of what the downstream handler received at most N distinct ids are open"
+	c.P.Rule = "E1 on the real middlewares around a recording downstream stub. Quota: N in {1,2} (thorough: 3 too) x ALL client histories of length <= 5 (thorough: 6) over {REQ a, REQ b, REQ c, CLOSE a, CLOSE b} (3905 per N for length <= 5), one history per job; oracle = set model computed from the history (forward iff id open or fewer than N open, else exactly one CLOSED naming the id; CLOSE forwarded and frees; |open downstream| <= N at every prefix; downstream receives exactly the forwarded messages in order; one EOSE per forwarded REQ). Unique filters: side in {recv, send} x window in {1,2} x ALL EVENT-id histories of length <= 5 (thorough: 6) over 3 ids (363 each for length <= 5), between non-EVENT messages that must pass unchanged; three-valued oracle per position (must block while among the last `window` distinct ids seen, must pass if never seen, else unclaimed; exactly one OK false with the duplicate: prefix per blocked client EVENT). Schedules: ALL interleavings of every history (unbounded search with state caching). Isolation: two sessions with colliding ids - concurrent, and one after the other has ended - on ONE middleware value (MaxSubscriptions(1), RecvEventUniqueFilter(2), SendEventUniqueFilter(2); 3 script pairs each) over one shared stub, all schedules within the budget else a delay bound; oracle: each session's outcome equals the model's outcome for that session alone. Quota above another limit: MaxSubscriptions(N) over MaxReqFilters(1), ALL histories of length <= 3/4 over {REQ a, REQ b, REQ a with 2 filters, REQ b with 2 filters, CLOSE a}: at every prefix of what the downstream handler received at most N distinct ids are open"
 	res := runJobs(c, jobs)
 	var unclaimed int64
 	sample := func(r JobResult) {
